@@ -379,8 +379,12 @@ class Interp:
                 ctx.assume(g)
             try:
                 self.exec_block(s.body, env)
-            except (_Break, _Continue):
-                raise PathAbort("break/continue in a loop cut by invariant", s.lineno)
+            except _Continue:
+                raise PathAbort("continue in a loop cut by invariant", s.lineno)
+            except _Break:
+                # the arbitrary iteration left the loop: execution continues after the loop from this state
+                # (Python skips the else clause after a break)
+                return
             ctx.oblige(inv(env, T.add(i, 1)), f"loop@{s.lineno}:preserve", kind="invariant", assume_after=False)
             raise PathEnd(f"loop@{s.lineno} body")
         if kind == "for":
@@ -513,8 +517,14 @@ class Interp:
             return Marker("np")
         if name == "ttb":
             return Marker("ttb")
-        if name in ("sparse", "scipy", "warnings", "logging", "math"):
+        if name in ("sparse", "scipy", "warnings", "logging", "math", "time"):
             return Marker(name)
+        if name == "estimate":
+            fi = self.index.get("pyttb.gcp.fg_est.estimate")
+            if fi is not None:
+                return fi
+        if name == "GCPSampler":
+            return ClassRef("GCPSampler")
         if name in PYTTB_CLASSES:
             return ClassRef(name)
         if name == "None":
@@ -1204,6 +1214,11 @@ class Interp:
         body (small helpers / properties) or abort."""
         q = fi.qualname
         self.call_log.append(q)
+        ab = getattr(self, "abstract_calls", None)
+        if ab and q in ab:
+            # the contract under verification supplies an abstract semantics for this callee (listed as an assumption)
+            self.ctx.trusted.add(f"abstract callee: {q} ({getattr(ab[q], '__doc__', '') or 'see contract'})")
+            return ab[q](self, pos, kw, self_val)
         c = self.contracts.get(q)
         if c is not None and q not in getattr(self, "opaque_calls", ()):
             return c.apply(self, pos, kw, self_val=self_val, cls_val=cls_val)
